@@ -31,6 +31,14 @@ pub fn trigger_cancel_panic() -> ! {
     // so that we can avoid the re-panic problem?
     // currently this is not used in any drop implementation
     // current_cancel_data().state.store(0, Ordering::Release);
+
+    // remember that the unwinding that starts here is a cancellation, the guards
+    // it drops must not poison their locks
+    if crate::coroutine_impl::is_coroutine() {
+        crate::coroutine_impl::current_cancel_data()
+            .unwinding
+            .store(true, std::sync::atomic::Ordering::Relaxed);
+    }
     std::panic::panic_any(Error::Cancel);
 }
 
@@ -72,6 +80,9 @@ pub struct CancelImpl<T: CancelIo> {
     // can't set io and co at the same time!
     // most of the time this is park based API
     co: AtomicOption<Arc<AtomicOption<CoroutineImpl>>>,
+    // set when the cancel panic was raised: tells a cancellation unwind
+    // from a panic of the coroutine that has a cancel request pending
+    unwinding: std::sync::atomic::AtomicBool,
 }
 
 impl<T: CancelIo> Default for CancelImpl<T> {
@@ -87,12 +98,18 @@ impl<T: CancelIo> CancelImpl<T> {
             state: AtomicUsize::new(0),
             io: T::new(),
             co: AtomicOption::none(),
+            unwinding: std::sync::atomic::AtomicBool::new(false),
         }
     }
 
     // judge if the coroutine cancel flag is set
     pub fn is_canceled(&self) -> bool {
         self.state.load(Ordering::Acquire) == 1
+    }
+
+    // judge if the coroutine is unwinding because of a cancel
+    pub fn is_cancel_unwinding(&self) -> bool {
+        self.unwinding.load(std::sync::atomic::Ordering::Relaxed)
     }
 
     // return if the coroutine cancel is disabled
